@@ -333,7 +333,8 @@ if PARAM.get('ship_lib'):
     _lib = _GL.Load(PARAM['ship_lib'])
     _g = [g for g in _lib if 'thermochem' in _lib[g] and _lib[g]['thermochem'].has_ND_Cp()][PARAM['ship_group']]
     _real = _lib[_g]['thermochem']._correlation
-    _stub = _PWP.from_real_spline(_real.spline) if len(_real.Ts) > 1 else None
+    # one tabulated point: the repo's own ConstantSpline (pure Python) is what runs; the oracle uses the constant polynomial
+    _stub = _PWP.from_real_spline(_real.spline) if len(_real.Ts) > 1 else PolySpline([float(_real.ND_Cps[0])])
     _SHIP = (str(_g), _real, _stub)
 
 
@@ -350,7 +351,7 @@ def h_shipped_table(d: bool):
     for f in ('Ts', 'ND_Cps', 'min_T', 'max_T', 'min_ND_Cp', 'max_ND_Cp', 'ND_H_ref', 'ND_S_ref', 'T_ref', 'range'):
         v = getattr(real, f)
         setattr(obj, f, tuple(float(x) for x in v) if isinstance(v, (tuple, list)) else (None if v is None else float(v)))
-    obj.spline = stub
+    obj.spline = stub if len(real.Ts) > 1 else m['rd'].ConstantSpline(float(real.ND_Cps[0]))
     lo, hi = obj.range
     T = R('T')
     if not (lo <= T <= hi):
